@@ -11,7 +11,8 @@ EXPLANATION = ("Decided from MIR: (R1) in EntryStore::finalize every call that c
                "gives each entry the enumerate index of its position in that same slice, through `as u32` and EntryIdx::from, no arithmetic; "
                "(R3) Vow::bind clones the Arc that Vow::fulfil stores into, BasicEntry::{set_idx,get_idx} use that same field, and "
                "EntryStore::add_entry returns the Bound obtained from the entry it pushes; (R4) in both value stores the sort precedes the "
-               "assignment of value ids and `finalized = true` comes last. The stored reference value for a given graph is not decided.")
+               "assignment of value ids and `finalized = true` comes last. The stored reference value for a given graph is not decided."
+               " (R3 Word) Word::get evaluates the stored closure at every call: no memoised value in `get` nor as a field of Word.")
 ASSUMPTIONS = ["rayon par_iter_mut().enumerate() yields (position, element) pairs", "atomics with Relaxed ordering are read after the join of finalisation",
                "rustc MIR construction and trait resolution"]
 
